@@ -171,7 +171,7 @@ theorem act_ctl_move {s s' : State} {t : Nat} (h : Inv hash s) (k : ActKind hash
     subst he
     have hthr : ThreadOK hash s.nodes s.chain (.construct f i) := by have := h.thr t; rw [hpc] at this; exact this
     obtain ⟨p, hf, _⟩ := hthr
-    exact ctlMove_set hf.lt (fun _ => Or.inl rfl) tb x
+    exact ctlMove_set (nd' := (nodeAt s.nodes f.tb).build i f.e) hf.lt (fun _ => Or.inl rfl) tb x
   | st1 f i hpc he =>
     subst he
     have hthr : ThreadOK hash s.nodes s.chain (.st1 f i) := by have := h.thr t; rw [hpc] at this; exact this
@@ -208,7 +208,7 @@ theorem act_ctl_move {s s' : State} {t : Nat} (h : Inv hash s) (k : ActKind hash
     subst he
     have hthr : ThreadOK hash s.nodes s.chain (.sz f i) := by have := h.thr t; rw [hpc] at this; exact this
     obtain ⟨p, hf, _⟩ := hthr
-    exact ctlMove_set hf.lt (fun _ => Or.inl rfl) tb x
+    exact ctlMove_set (nd' := (nodeAt s.nodes f.tb).bump) hf.lt (fun _ => Or.inl rfl) tb x
   | alloc f hpc he =>
     subst he
     show CtlMove _ x _ ((nodeAt (s.nodes ++ [_]) tb).tab.ctl x)
@@ -217,7 +217,7 @@ theorem act_ctl_move {s s' : State} {t : Nat} (h : Inv hash s) (k : ActKind hash
     subst he
     have hthr : ThreadOK hash s.nodes s.chain (.nextCas f nw) := by have := h.thr t; rw [hpc] at this; exact this
     obtain ⟨p, hf, _⟩ := hthr
-    exact ctlMove_set hf.lt (fun _ => Or.inl rfl) tb x
+    exact ctlMove_set (nd' := (nodeAt s.nodes f.tb).link nw) hf.lt (fun _ => Or.inl rfl) tb x
 
 /-! ### the mirrored byte lags only during one insert -/
 
@@ -229,6 +229,10 @@ def InvMirror (s : State) : Prop :=
   ∀ tb, tb < s.nodes.length → (nodeAt s.nodes tb).tab.dummy = false → ∀ j, j < 15 →
     (nodeAt s.nodes tb).tab.ctl j ≠ emptyCtl →
     (nodeAt s.nodes tb).tab.ctl ((nodeAt s.nodes tb).tab.n + j) = emptyCtl → Inserting s tb j
+
+theorem pc_ne_ins {p : Pc} (hown : ownerOf p = none) (g : Frame) (j : Nat) :
+    p ≠ .construct g j ∧ p ≠ .st1 g j ∧ p ≠ .st2 g j := by
+  refine ⟨?_, ?_, ?_⟩ <;> (intro e; rw [e] at hown; simp [ownerOf] at hown)
 
 theorem Inserting.other {s s' : State} {t tb j : Nat} (hpc : ∀ t', t' ≠ t → s'.pc t' = s.pc t')
     (h : Inserting s tb j) (hne : ∀ f, s.pc t ≠ .construct f j ∧ s.pc t ≠ .st1 f j ∧ s.pc t ≠ .st2 f j ∨ f.tb ≠ tb) :
@@ -258,7 +262,7 @@ theorem invMirror_step {s s' : State} {t : Nat} (h : Inv hash s) (h' : Inv hash 
       (∀ tb j, Inserting s tb j → (∃ f, (s.pc t = .construct f j ∨ s.pc t = .st1 f j ∨ s.pc t = .st2 f j) ∧ f.tb = tb) →
         Inserting s' tb j) → InvMirror s' := by
     intro p' hlen hctl hdum hn hpc hkeep tb htb hd j hj h1 h2
-    rw [hctl, hn, hctl] at h2
+    rw [hctl, hn] at h2
     rw [hctl] at h1
     have hins := hm tb (by rw [← hlen]; exact htb) (by rw [← hdum]; exact hd) j hj h1 h2
     by_cases hself : ∃ f, (s.pc t = .construct f j ∨ s.pc t = .st1 f j ∨ s.pc t = .st2 f j) ∧ f.tb = tb
@@ -289,7 +293,7 @@ theorem invMirror_step {s s' : State} {t : Nat} (h : Inv hash s) (h' : Inv hash 
     change (nodeAt (s.nodes.set f.tb _) tb).tab.dummy = false at hd
     have hnotme : ∀ g : Frame, s.pc t ≠ .construct g j ∧ s.pc t ≠ .st1 g j ∧ s.pc t ≠ .st2 g j ∨ g.tb ≠ tb := by
       intro g; left; rw [hpc]
-      exact ⟨fun e2 => by cases e2, fun e2 => by cases e2, fun e2 => by cases e2⟩
+      exact pc_ne_ins rfl g j
     by_cases e : tb = f.tb
     · subst e
       rw [nodeAt_set_same _ _ _ hf.lt] at h1 h2 hd
@@ -335,34 +339,33 @@ theorem invMirror_step {s s' : State} {t : Nat} (h : Inv hash s) (h' : Inv hash 
     obtain ⟨p, hf, hown, _, hc, _⟩ := hthr
     have hr := (h.nodes _ hf.lt).real hown.real
     have hilt : i < (nodeAt s.nodes f.tb).tab.n := by rw [← hf.nEq]; exact hown.lt
+    have hil : i < (nodeAt s.nodes f.tb).tab.ctrl.length := by rw [hr.ctrlLen]; omega
     intro tb htb hd j hj h1 h2
     have htb' : tb < s.nodes.length := by
       have : tb < (s.nodes.set f.tb _).length := htb
       rwa [List.length_set] at this
-    by_cases e : tb = f.tb ∧ j = i
-    · obtain ⟨rfl, rfl⟩ := e
-      exact ⟨t, f, Or.inr (Or.inr (setPc_pc_same _ _ _)), rfl⟩
-    · change (nodeAt (s.nodes.set f.tb _) tb).tab.ctl j ≠ emptyCtl at h1
-      change (nodeAt (s.nodes.set f.tb _) tb).tab.ctl ((nodeAt (s.nodes.set f.tb _) tb).tab.n + j) = emptyCtl at h2
-      change (nodeAt (s.nodes.set f.tb _) tb).tab.dummy = false at hd
-      rw [nodeAt_set _ _ _ _ hf.lt] at h1 h2 hd
-      have hold : Inserting s tb j := by
-        split at h1
-        · next e2 =>
-          subst e2
-          have hji : j ≠ i := fun e3 => e ⟨rfl, e3⟩
-          rw [setCtl_ctl _ _ _ (by rw [hr.ctrlLen]; omega), if_neg hji] at h1
-          rw [setCtl_n, setCtl_ctl _ _ _ (by rw [hr.ctrlLen]; omega), if_neg (by omega)] at h2
-          exact hm tb htb' hd j hj h1 h2
-        · exact hm tb htb' hd j hj h1 h2
-      apply hold.other (hothers _ _)
+    change (nodeAt (s.nodes.set f.tb _) tb).tab.ctl j ≠ emptyCtl at h1
+    change (nodeAt (s.nodes.set f.tb _) tb).tab.ctl ((nodeAt (s.nodes.set f.tb _) tb).tab.n + j) = emptyCtl at h2
+    change (nodeAt (s.nodes.set f.tb _) tb).tab.dummy = false at hd
+    by_cases e : tb = f.tb
+    · subst e
+      rw [nodeAt_set_same _ _ _ hf.lt] at h1 h2 hd
+      by_cases hji : j = i
+      · subst hji
+        exact ⟨t, f, Or.inr (Or.inr (setPc_pc_same _ _ _)), rfl⟩
+      · rw [setCtl_ctl _ _ _ hil, if_neg hji] at h1
+        rw [setCtl_n, setCtl_ctl _ _ _ hil, if_neg (by omega)] at h2
+        apply (hm f.tb hf.lt hown.real j hj h1 h2).other (hothers _ _)
+        intro g; left; rw [hpc]
+        refine ⟨(fun e2 => nomatch e2), ?_, (fun e2 => nomatch e2)⟩
+        intro e2; cases e2; exact hji rfl
+    · rw [nodeAt_set_other _ _ e] at h1 h2 hd
+      apply (hm tb htb' hd j hj h1 h2).other (hothers _ _)
       intro g
       by_cases hg : g.tb = tb
-      · left
-        rw [hpc]
-        refine ⟨fun e2 => by cases e2, fun e2 => ?_, fun e2 => by cases e2⟩
-        cases e2
-        exact e ⟨hg.symm, rfl⟩
+      · left; rw [hpc]
+        refine ⟨(fun e2 => nomatch e2), ?_, (fun e2 => nomatch e2)⟩
+        intro e2; cases e2; exact e hg.symm
       · exact Or.inr hg
   | st2 f i hpc he =>
     subst he
@@ -371,6 +374,7 @@ theorem invMirror_step {s s' : State} {t : Nat} (h : Inv hash s) (h' : Inv hash 
     have hr := (h.nodes _ hf.lt).real hown.real
     have hilt : i < (nodeAt s.nodes f.tb).tab.n := by rw [← hf.nEq]; exact hown.lt
     have hci := clonedIndex_eq hr.ge16 hilt
+    have h16 := hr.ge16
     have hctl : ∀ y, ((nodeAt s.nodes f.tb).setCtl ((nodeAt s.nodes f.tb).tab.clonedIndex i) (tagOf (hash f.e.1))).tab.ctl y =
         if y = (nodeAt s.nodes f.tb).tab.clonedIndex i then tagOf (hash f.e.1) else (nodeAt s.nodes f.tb).tab.ctl y :=
       fun y => setCtl_ctl _ _ _ (by rw [hr.ctrlLen, hci]; split <;> omega) y
@@ -381,30 +385,28 @@ theorem invMirror_step {s s' : State} {t : Nat} (h : Inv hash s) (h' : Inv hash 
     change (nodeAt (s.nodes.set f.tb _) tb).tab.ctl j ≠ emptyCtl at h1
     change (nodeAt (s.nodes.set f.tb _) tb).tab.ctl ((nodeAt (s.nodes.set f.tb _) tb).tab.n + j) = emptyCtl at h2
     change (nodeAt (s.nodes.set f.tb _) tb).tab.dummy = false at hd
-    rw [nodeAt_set _ _ _ _ hf.lt] at h1 h2 hd
-    by_cases e : tb = f.tb ∧ j = i
-    · -- the mirrored byte of this very bucket has just been written
-      obtain ⟨rfl, rfl⟩ := e
-      exfalso
-      rw [if_pos rfl, setCtl_n, hctl, hci, if_pos hj, if_pos (by omega)] at h2
-      exact tagOf_ne_empty _ h2
-    · have hold : Inserting s tb j := by
-        split at h1
-        · next e2 =>
-          subst e2
-          have hji : j ≠ i := fun e3 => e ⟨rfl, e3⟩
-          rw [hctl, if_neg (by rw [hci]; split <;> omega)] at h1
-          rw [setCtl_n, hctl, if_neg (by rw [hci]; split <;> omega)] at h2
-          exact hm tb htb' hd j hj h1 h2
-        · exact hm tb htb' hd j hj h1 h2
-      apply hold.other (hothers _ _)
+    by_cases e : tb = f.tb
+    · subst e
+      rw [nodeAt_set_same _ _ _ hf.lt] at h1 h2 hd
+      by_cases hji : j = i
+      · -- the mirrored byte of this very bucket has just been written
+        subst hji
+        exfalso
+        rw [setCtl_n, hctl, hci, if_pos hj, if_pos (by omega)] at h2
+        exact tagOf_ne_empty _ h2
+      · rw [hctl, if_neg (by rw [hci]; split <;> omega)] at h1
+        rw [setCtl_n, hctl, if_neg (by rw [hci]; split <;> omega)] at h2
+        apply (hm f.tb hf.lt hown.real j hj h1 h2).other (hothers _ _)
+        intro g; left; rw [hpc]
+        refine ⟨(fun e2 => nomatch e2), (fun e2 => nomatch e2), ?_⟩
+        intro e2; cases e2; exact hji rfl
+    · rw [nodeAt_set_other _ _ e] at h1 h2 hd
+      apply (hm tb htb' hd j hj h1 h2).other (hothers _ _)
       intro g
       by_cases hg : g.tb = tb
-      · left
-        rw [hpc]
-        refine ⟨fun e2 => by cases e2, fun e2 => by cases e2, fun e2 => ?_⟩
-        cases e2
-        exact e ⟨hg.symm, rfl⟩
+      · left; rw [hpc]
+        refine ⟨(fun e2 => nomatch e2), (fun e2 => nomatch e2), ?_⟩
+        intro e2; cases e2; exact e hg.symm
       · exact Or.inr hg
   | sz f i hpc he =>
     subst he
@@ -437,7 +439,7 @@ theorem invMirror_step {s s' : State} {t : Nat} (h : Inv hash s) (h' : Inv hash 
       have := hm tb hl hd j hj h1 h2
       apply this.other (hothers _ _)
       intro g
-      left; rw [hpc]; exact ⟨fun e2 => by cases e2, fun e2 => by cases e2, fun e2 => by cases e2⟩
+      left; rw [hpc]; exact pc_ne_ins rfl g j
     · have : tb = s.nodes.length := by omega
       subst this
       rw [nodeAt_append_eq] at h1
